@@ -49,6 +49,10 @@ Proof. repeat split; vm_compute; reflexivity. Qed.
    from: every key once, every value unchanged, nothing absent becomes present *)
 Theorem C17_one_liner_reads_back : forall c, wf_cfg c -> read_one_liner (one_liner c) = Some c.
 Proof. exact one_liner_reads_back. Qed.
+(* ... and it stays on the line it is written on (after the language of a code fence): it holds no control character, no line
+   break of any kind (LF, CR, NEL, LS, PS) and no byte order mark, whatever the names, values and paths contain *)
+Theorem C17_one_liner_inline : forall c, Forall (fun x => needs_u_escape x = false) (one_liner c).
+Proof. exact one_liner_inline. Qed.
 Example C17_one_liner_instance :
   let c := mkY (Some 2) None (Some (86400, 500000000)) (Some false) (Some (-3)%Z) None (Some (5, 0, Some [47; 116; 32; 125])) [([65], [44; 32; 125])] in
   wf_cfg c /\ read_one_liner (one_liner c) = Some c
@@ -76,3 +80,4 @@ Print Assumptions C17_scalar_round_trip.
 Print Assumptions C17_environment_reads_back.
 Print Assumptions C17_duration_round_trip.
 Print Assumptions C17_one_liner_reads_back.
+Print Assumptions C17_one_liner_inline.
